@@ -708,3 +708,22 @@ Proof.
   destruct (step s o) as (s', out) eqn:St. cbn in *.
   apply IH; auto. eapply step_partial'; eauto.
 Qed.
+
+(* ---- Loop.__eq__ reads structure, counts, waveforms and measurements only ---------------------------------------------------------------------- *)
+Definition eshape (n : node) := (children n, rdf n, wform n, meas n).
+Definition esame (h h' : heap) := forall y, option_map eshape (get h y) = option_map eshape (get h' y).
+
+Lemma list_eqb_ext {A} (e1 e2 : A -> A -> bool) : (forall x y, e1 x y = e2 x y) ->
+  forall a b, list_eqb e1 a b = list_eqb e2 a b.
+Proof. intros E; induction a; intros [|y b]; cbn; auto. now rewrite E, IHa. Qed.
+
+Lemma loop_eqb_esame h h' : esame h h' -> forall fuel a b, loop_eqb fuel h a b = loop_eqb fuel h' a b.
+Proof.
+  intros S. induction fuel as [|f IH]; intros a b; cbn; auto.
+  pose proof (S a) as Sa. pose proof (S b) as Sb.
+  destruct (get h a) as [na|], (get h' a) as [na'|]; cbn in Sa; try discriminate; auto.
+  destruct (get h b) as [nb|], (get h' b) as [nb'|]; cbn in Sb; try discriminate; auto.
+  unfold eshape in *. inversion Sa; inversion Sb.
+  repeat match goal with Hx : _ = _ |- _ => rewrite Hx end.
+  f_equal. apply list_eqb_ext. exact IH.
+Qed.
